@@ -192,8 +192,16 @@ impl fmt::Display for HumanFloatCount {
         let num = format!("{:.*}", precision, self.0);
 
         let (int_part, frac_part) = match num.split_once('.') {
-            Some((int_str, fract_str)) => (int_str.to_string(), fract_str),
-            None => (self.0.trunc().to_string(), ""),
+            Some((int_str, fract_str)) => (int_str, fract_str),
+            None => (num.as_str(), ""),
+        };
+        // The sign is not a digit: keep it out of the grouping
+        let int_part = match int_part.strip_prefix('-') {
+            Some(digits) => {
+                f.write_char('-')?;
+                digits
+            }
+            None => int_part,
         };
         let len = int_part.len();
         for (idx, c) in int_part.chars().enumerate() {
